@@ -2183,6 +2183,8 @@ fn poll_and_track_fn_ready_common(
     stream::poll_fn(move |context| {
         fn_ready_rx.poll_recv(context).map(|fn_id_opt| {
             fn_id_opt.inspect(|&fn_id| {
+                #[cfg(feature = "verif_hooks")]
+                crate::verif_hooks::dequeued(fn_id.index());
                 fn_ids_processed.push(fn_id);
             })
         })
@@ -2221,6 +2223,8 @@ fn poll_and_track_fn_ready<'f>(
                 };
 
                 if let Some(fn_id) = fn_id {
+                    #[cfg(feature = "verif_hooks")]
+                    crate::verif_hooks::dequeued(fn_id.index());
                     fn_ids_processed.push(fn_id);
                 }
 
